@@ -2,7 +2,7 @@
    machine with frames: the layout facts `prog_ok` for the module image `rel_image p` (every
    function body is where the function table says, the exception table sends the addresses of a
    function to its LABEL; RETHROW), the entry stub (MARK; PUSH_PARAM; GLOBAL_VEC 0; ID_FUNC_ENTRY;
-   CALL … HALT / UNHANDLED_EXCEPTION), and compile_program_correct_F3_nontail.  No axioms. *)
+   CALL … HALT / UNHANDLED_EXCEPTION), and compile_program_correct_F3.  No axioms. *)
 From Coq Require Import ZArith List Bool Lia.
 From NV Require Import Gen.Opcodes Verifier.Effect Src.Syntax Src.Eval Src.EvalLemmas
   VM.ValueVM3 Src.Compile3 Src.CompileCorrect3Base Src.CompileCorrect3.
@@ -158,6 +158,27 @@ Proof.
   destruct (N.eqb f (fd_name g)); eauto.
 Qed.
 
+Lemma mem_id_nth : forall (l : list fdef) k fd, nth_error l k = Some fd ->
+  mem_id (fd_name fd) (map fd_name l) = true.
+Proof.
+  induction l as [|g t IH]; intros k fd H; [destruct k; discriminate|].
+  destruct k; simpl in H |- *.
+  - inv H. rewrite N.eqb_refl. reflexivity.
+  - rewrite (IH k fd H). apply orb_true_r.
+Qed.
+
+Lemma nodup_find : forall (l : list fdef), nodup_ids (map fd_name l) = true ->
+  forall k fd, nth_error l k = Some fd -> find_func (fd_name fd) l = Some fd.
+Proof.
+  induction l as [|g t IH]; intros Hn k fd H; [destruct k; discriminate|].
+  simpl in Hn. apply andb_true_iff in Hn. destruct Hn as [Hg Ht]. apply negb_true_iff in Hg.
+  destruct k; simpl in H |- *.
+  - inv H. rewrite N.eqb_refl. reflexivity.
+  - destruct (N.eqb (fd_name fd) (fd_name g)) eqn:E.
+    + apply N.eqb_eq in E. rewrite <- E, (mem_id_nth t k fd H) in Hg. discriminate.
+    + apply IH with (k := k); assumption.
+Qed.
+
 (* ---- single steps of the entry stub ---------------------------------------------------------------- *)
 
 Lemma step_push_param : forall X prog ip stk h o fr,
@@ -234,13 +255,12 @@ Proof.
     rewrite nth_error_map, H. reflexivity.
 Qed.
 
-(* ---- compile_program_correct_F3_nontail ------------------------------------------------------------ *)
+(* ---- compile_program_correct_F3 ------------------------------------------------------------ *)
 
 Section Main.
 Variable p : program.
 Variable args : list Z.
 Hypothesis HF3 : prog_in_F3 p = true.
-Hypothesis Hnt : no_self_tail p = true.
 
 Let X := prog_xinfo p args.
 Let G := {| g_genv := global_env (p_funcs p) 0; g_funcs := p_funcs p |}.
@@ -258,12 +278,12 @@ Proof.
   rewrite forallb_forall in H1. exact (H1 fd H).
 Qed.
 
-Lemma notail3 : forall fd, In fd (g_funcs G) ->
-  compile_body (map fd_name (g_funcs G)) fd =
-  compile_expr (map fd_name (g_funcs G)) 0 (param_env (fd_params fd) 0) (EBlock (fd_body fd)).
+Lemma find3 : forall kidx fd, nth_error (g_funcs G) kidx = Some fd ->
+  find_func (fd_name fd) (g_funcs G) = Some fd.
 Proof.
-  intros fd H. apply no_self_tail_body. unfold no_self_tail in Hnt. rewrite forallb_forall in Hnt.
-  exact (Hnt fd H).
+  intros kidx fd H. unfold prog_in_F3, prog_in_F in HF3.
+  apply andb_true_iff in HF3; destruct HF3 as [H1 _]. apply andb_true_iff in H1; destruct H1 as [_ H2].
+  exact (nodup_find (p_funcs p) H2 kidx fd H).
 Qed.
 
 Lemma stub_at : CompileCorrect3Base.code_at prog ce stub.
@@ -277,7 +297,7 @@ Proof.
   apply hsearch_before. unfold head_len. fold ce. simpl. lia.
 Qed.
 
-Theorem compile_program_correct_F3_nontail : forall fuel,
+Theorem compile_program_correct_F3 : forall fuel,
   match run_program fuel p args with
   | OResult v printed => exists k z, run_vm p k args = VRet z printed /\ val_rel v z
   | OUnhandled ex printed => exists k, run_vm p k args = VExc ex printed
@@ -347,8 +367,7 @@ Proof.
     unfold h'. rewrite nth_error_app2, Nat.sub_diag by lia. reflexivity. }
   (* the simulation of the body *)
   pose proof (prog_ok_image p args) as Hpo. fold X G prog in Hpo.
-  pose proof (proj1 (proj2 (CompileCorrect3.spec_all X G 3 funcs_ok3 notail3 fuel))) as Hitems.
-  pose proof (CompileCorrect3.body_of_items X G 3 funcs_ok3 notail3 fuel Hitems) as Hbody.
+  pose proof (CompileCorrect3.body_all X G 3 funcs_ok3 find3 fuel) as Hbody.
   assert (HMS : MS (entry_morph (p_funcs p) n) st1 h').
   { unfold h', h0. rewrite <- app_assoc. apply entry_MS. }
   assert (HF2 : Forall2 (fun c a => nth_error (entry_morph (p_funcs p) n) c = Some (MA a)) (seq nf n) astk).
